@@ -196,7 +196,7 @@ def run_config(contract, cfg, facets="VCSTRN", prime=None, tier="quick", max_pat
                 res["engine_errors"].append("RecursionError: %s" % e)
                 continue
             except BaseException as e:
-                if isinstance(e, (KeyboardInterrupt, MemoryError)):
+                if isinstance(e, MemoryError):
                     raise
                 outcome = ("exc", e)
             if not w.target_entered:
@@ -238,6 +238,11 @@ def run_config(contract, cfg, facets="VCSTRN", prime=None, tier="quick", max_pat
                     else:
                         obs.append(("R.raise_implies_cond[%s]" % type(e).__name__, [],
                                     z3.Or(*[formula(cnd) for _, cnd in matching]), None))
+                if "F" in facets:
+                    with _entry_state(c):
+                        pe = contract.post_exc(c, e, *args, **kwargs)
+                    for nm, f in pe.items():
+                        obs.append((nm + "@raise", [], f, None))
             else:
                 res["normal_paths"] += 1
                 r = outcome[1]
